@@ -47,7 +47,9 @@ PROLOGS = ['', '', '', '<!-- c -->', '<?pi x?>', '<?xml version="1.0"?>', '<?xml
            '<?xml version="1.1"?>', '<?xml version="1.0" standalone="yes"?>',
            '<?xml version="1.0" encoding="EUC-JP"?>', '<?xml version="1.0" encoding="Shift_JIS"?>',
            '<?xml version="1.0" encoding="GB2312"?>', '<?xml version="1.0" encoding="Big5"?>',
-           '<?xml version="1.0" encoding="EUC-KR"?><!-- c -->', '<?xml version="1.0" encoding="no-such-encoding"?>']
+           '<?xml version="1.0" encoding="EUC-KR"?><!-- c -->', '<?xml version="1.0" encoding="no-such-encoding"?>',
+           # processing instructions whose target is a name only for XML 1.0 5th edition (libxml2 reads them, expat does not)
+           '<?\U00010000 x?>', '<?\u0370 ?>', '<?xml version="1.0"?><?\U00010000 x?>']
 
 
 def gen_entity_doc(rng, marker_path):
@@ -58,7 +60,19 @@ def gen_entity_doc(rng, marker_path):
 
 def _gen_entity_doc(rng, marker_path):
     kind = rng.choice(['internal', 'internal-nested', 'external-system', 'external-public', 'parameter',
-                       'parameter-external', 'internal-unused', 'external-dtd', 'attr-default', 'billion'])
+                       'parameter-external', 'internal-unused', 'external-dtd', 'attr-default', 'billion',
+                       'fifth-edition-doctype', 'fifth-edition-declaration', 'fifth-edition-entity-name', 'two-colons-declaration'])
+    if kind == 'fifth-edition-doctype':
+        n = rng.choice(['\U00010000', '\u0370', 'a\u0370'])
+        return kind, '<!DOCTYPE %s [<!ENTITY e "%s">]><%s>&e;</%s>' % (n, MARKER, n, n)
+    if kind == 'fifth-edition-declaration':
+        d = rng.choice(['<!ELEMENT \u0370 ANY>', '<!ATTLIST r \U00010000 CDATA #IMPLIED>', '<!NOTATION \u0370 SYSTEM "x">'])
+        return kind, '<!DOCTYPE r [%s<!ENTITY e "%s">]><r>&e;</r>' % (d, MARKER)
+    if kind == 'fifth-edition-entity-name':
+        return kind, '<!DOCTYPE r [<!ENTITY \u0370 "%s">]><r>&\u0370;</r>' % MARKER
+    if kind == 'two-colons-declaration':
+        d = rng.choice(['<!ELEMENT a:b:c ANY>', '<!ATTLIST r a:b:c CDATA #IMPLIED>'])
+        return kind, '<!DOCTYPE r [%s<!ENTITY e "%s">]><r>&e;</r>' % (d, MARKER)
     if kind == 'internal':
         return kind, '<!DOCTYPE r [<!ENTITY e "%s">]><r>&e;</r>' % MARKER
     if kind == 'internal-nested':
@@ -110,6 +124,14 @@ def gen_case(rng, tier):
             e = rng.choice(ENV_EXPRS + ENV_ALL)
             ops.append({'op': 'env-token', 'expr': e, 'name': '$sentinel', 'slot': rng.randrange(3),
                         'allow': rng.random() < 0.5, 'via': rng.choice(['token', 'selector'])})
+        elif x < 0.72:
+            # the file that exposes the environment block of the process, read as text
+            ops.append({'op': 'proc-environ', 'href': rng.choice(['file:///proc/self/environ', 'file:///proc/self/environ',
+                                                                   'file:///proc/thread-self/environ', 'file:///proc/1/environ',
+                                                                   'file:///proc/self/task/1/environ', 'file:///proc/self/../self/environ']),
+                        'enc': rng.choice(['utf-16-le', 'utf-16-be', 'utf-16-le', 'utf-16', 'utf-8', 'latin1', 'utf-32-le']),
+                        'fn': rng.choice(['unparsed-text', 'unparsed-text', 'unparsed-text-lines', 'unparsed-text-available']),
+                        'allow': rng.random() < 0.2})
         elif x < 0.9:
             ops.append({'op': 'entity', 'seed': rng.randrange(1 << 30), 'fn': rng.choice(['parse-xml', 'parse-xml', 'parse-xml-fragment']),
                         'backend': rng.choice(['et', 'lxml', 'none']), 'via': rng.choice(['variable', 'literal'])})
@@ -221,6 +243,43 @@ def run_case(case, world):
                 if leak_in(res):
                     stats['positive_controls'] += 1
                     world.probe('positive-control-saw-sentinel')
+            elif kind == 'proc-environ':
+                stats['env_ops'] += 1
+                block = b''.join(('%s=%s' % kv).encode('utf-8', 'surrogateescape') + b'\0' for kv in sorted(os.environ.items()))
+                block += b'\0' * (-len(block) % 4)
+                href = op['href']
+                for key in (href, href.replace('/self/../self/', '/self/')):
+                    world.fs.add(key, block)
+                enc = op['enc']
+                if op['fn'] == 'unparsed-text-available':
+                    expr = "unparsed-text-available('%s', '%s')" % (href, enc)
+                else:
+                    width = 4 if '32' in enc else 2 if '16' in enc else 1
+                    order = 'reverse' if enc.endswith('be') else 'data'
+                    units = {1: '$c', 2: '($c mod 256, $c idiv 256)',
+                             4: '($c mod 256, ($c idiv 256) mod 256, ($c idiv 65536) mod 256, $c idiv 16777216)'}[width]
+                    expr = ("string-join(for $t in %s('%s', '%s') return codepoints-to-string(for $c in string-to-codepoints($t), "
+                            "$b in %s(%s) return if ($b lt 32 or $b gt 126) then 10 else $b), '|')" % (
+                                op['fn'], href, enc, order, units))
+                try:
+                    res = XPath31Parser().parse(expr).get_results(
+                        elementpath.XPathContext(root, allow_environment=op['allow']))
+                    text = repr(canon(res))
+                except Exception as e:
+                    text = repr(canon_exc(e)) + str(e)
+                del world.fs.access_log[:]
+                world.event(('proc-environ', idx, op['fn'], enc, op['allow'], len(text) > 60))
+                if op['allow']:
+                    if leak_in(text):
+                        world.probe('positive-control-saw-sentinel-in-proc-environ')
+                else:
+                    leak = leak_in(text)
+                    if leak or any(k in text for k in sentinels):
+                        violate('ENV_LEAK', 'environment-observable:proc-environ',
+                                '%s(%s, %s) exposed %s with default settings' % (op['fn'], op['href'], enc, leak or 'variable names'),
+                                [kind, 'enc:' + enc, 'fn:' + op['fn']])
+                    elif op['fn'] == 'unparsed-text-available' and 'True' in text:
+                        world.probe('proc-environ-reported-available')
             elif kind == 'entity':
                 stats['entity_ops'] += 1
                 r = random.Random(op['seed'])
